@@ -20,12 +20,33 @@ theorem C14_generated_table_ok : TableOK Generated.table = true := generated_tab
 theorem C14_generated_sigs_ok : SigsOK Generated.functionTable Spec.functionTable = true := generated_sigs_ok
 theorem C14_generated_lex_ok : LexTablesOK Model.lexTables Spec.lexTables = true := generated_lex_ok
 
-/-- A raw string literal (with ' written as \') denotes exactly the string — any
-    well-formed UTF-8 string the syntax can spell, every plane, backslashes included: scanning the spelling followed by the closing quote
-    yields the string and leaves the rest of the expression. -/
-theorem C14_raw_string_round_trip (s rest : Bytes) (ha : Json.ValidUtf8 s) (hok : RawOK s) :
+/-- A raw string literal (with ' written as \') denotes exactly the string — every
+    well-formed UTF-8 string that does not end with a backslash, every plane, backslashes
+    included (also directly before a quote: `\'` is written `\\'`): scanning the spelling
+    followed by the closing quote yields the string and leaves the rest of the expression.
+    The condition is necessary (`C14_raw_string_trailing_backslash_is_unspellable`). -/
+theorem C14_raw_string_round_trip (s rest : Bytes) (ha : Json.ValidUtf8 s) (hok : RawEndOK s) :
     rawBody (rawSpell s ++ 0x27 :: rest).length (rawSpell s ++ 0x27 :: rest) = some (s, rest) :=
   rawBody_rawSpell_utf8 ha rest _ hok (by simp)
+
+/-- `RawEndOK s` says that the last byte of `s`, if there is one, is not a backslash. -/
+theorem C14_raw_string_condition (s : Bytes) : RawEndOK s ↔ s.getLast? ≠ some 0x5C :=
+  RawEndOK_iff_getLast? s
+
+/-- A string that ends with a backslash cannot be written as a raw string: in the spelling of
+    `s ++ "\\"` followed by the closing quote, the last backslash escapes that quote and the
+    scanner runs off the end of the input (an unterminated literal) — for every byte string `s`
+    and whatever the fuel; in particular the round trip fails. -/
+theorem C14_raw_string_trailing_backslash_is_unspellable (s : Bytes) (fuel : Nat) :
+    rawBody fuel (rawSpell (s ++ [0x5C]) ++ 0x27 :: []) = none :=
+  rawBody_rawSpell_trailing_backslash fuel s
+
+/-- … so the hypothesis of `C14_raw_string_round_trip` cannot be dropped: with the fuel used
+    there, the spelling of a string that ends with a backslash is never read back as the string. -/
+theorem C14_raw_string_trailing_backslash_no_round_trip (s : Bytes) :
+    rawBody (rawSpell (s ++ [0x5C]) ++ 0x27 :: []).length (rawSpell (s ++ [0x5C]) ++ 0x27 :: [])
+      ≠ some (s ++ [0x5C], []) := by
+  rw [C14_raw_string_trailing_backslash_is_unspellable]; exact fun h => nomatch h
 
 /-- Quoted identifiers and literals: the delimiter scan returns exactly the
     delimited text when it is made of units (plain bytes, or a backslash and the
@@ -115,7 +136,21 @@ theorem C14_white_space (r : Nat) : Generated.whiteSpace.contains r = (r == 0x20
 example : RawOK [0x61, 0x5C, 0x62, 0x27, 0x63] ∧ Ascii [0x61, 0x5C, 0x62, 0x27, 0x63] := by
   refine ⟨by simp [RawOK], ?_⟩
   intro c hc; simp at hc; rcases hc with rfl | rfl | rfl | rfl | rfl <;> decide
+example : RawEndOK [0x61, 0x5C, 0x62, 0x27, 0x63] := RawOK.toEnd (by simp [RawOK])
 example : rawSpell [0x61, 0x5C, 0x62, 0x27, 0x63] = [0x61, 0x5C, 0x62, 0x5C, 0x27, 0x63] := by decide
+/-- A backslash directly before a quote (`a\'b`): `RawEndOK` holds, `RawOK` does not; the
+    spelling is `a\\'b` and the scanner reads it back as the string, leaving what follows. -/
+example : RawEndOK [0x61, 0x5C, 0x27, 0x62] ∧ ¬ RawOK [0x61, 0x5C, 0x27, 0x62] := by
+  refine ⟨by simp [RawEndOK], by simp [RawOK]⟩
+example : rawSpell [0x61, 0x5C, 0x27, 0x62] = [0x61, 0x5C, 0x5C, 0x27, 0x62] := by decide
+example : rawBody (rawSpell [0x61, 0x5C, 0x27, 0x62] ++ 0x27 :: [0x2E, 0x78]).length
+    (rawSpell [0x61, 0x5C, 0x27, 0x62] ++ 0x27 :: [0x2E, 0x78]) = some ([0x61, 0x5C, 0x27, 0x62], [0x2E, 0x78]) := by decide
+example : Json.ValidUtf8 [0x61, 0x5C, 0x27, 0x62] :=
+  .ascii _ _ (by decide) (.ascii _ _ (by decide) (.ascii _ _ (by decide) (.ascii _ _ (by decide) .nil)))
+/-- the string `\'` alone, and the trailing backslash that cannot be written -/
+example : rawBody 4 (rawSpell [0x5C, 0x27] ++ [0x27]) = some ([0x5C, 0x27], []) := by decide
+example : ¬ RawEndOK [0x61, 0x5C] := by simp [RawEndOK]
+example : rawBody 4 (rawSpell [0x61, 0x5C] ++ [0x27]) = none := by decide
 example : Units 0x22 [0x61, 0x5C, 0x22, 0x5C, 0x5C] :=
   .plain _ _ (by decide) (by decide) (by decide) (.esc _ _ (by decide) (.esc _ _ (by decide) .nil))
 
@@ -196,9 +231,10 @@ theorem C14_literal_text_denotes_value {N : Type} [NumOps N] (hN : NumCodec N) (
   exact decode_encode hN v hv hd
 
 open Jmes.Lexer Jmes.Json Jmes.Spec in
-/-- … and as an expression: `'` + the spelling of `s` + `'` compiles to the literal `s`
+/-- … and as an expression, for every well-formed UTF-8 string `s` that does not end with a
+    backslash: `'` + the spelling of `s` + `'` compiles to the literal `s`
     (so `Search` returns exactly `s`, whatever the document). -/
-theorem C14_raw_string_denotes {N : Type} [NumOps N] (s : Bytes) (hv : ValidUtf8 s) (hok : RawOK s) (d : Val N) :
+theorem C14_raw_string_denotes {N : Type} [NumOps N] (s : Bytes) (hv : ValidUtf8 s) (hok : RawEndOK s) (d : Val N) :
     Api.search Model.cfg (0x27 :: (rawSpell s ++ [0x27])) d = .ok (.str s) := by
   have hr : Rendered [(.stringLiteral, s)] ([] ++ ((0x27 :: (rawSpell s ++ [0x27])) ++ [])) :=
     Rendered.cons [] .stringLiteral s _ [] [] (by simp) (Spell.raw s hv hok) (Rendered.nil [] (by simp)) trivial
